@@ -602,6 +602,8 @@ def _windows_unconditional(ctx, pkg):
                     ctx.bad("R4", f"{cls}:{attr} stored", (file, fn.lineno), f"{cls}._parse_string never stores {attr}")
                 continue
             v = simp(st[-1].value)
+            if v[0] == "unop" and v[1] in ("USub", "UAdd") and v[2][0] == "const" and isinstance(v[2][1], (int, float)):
+                v = ("const", -v[2][1] if v[1] == "USub" else v[2][1])        # a signed literal is a constant
             inner = v[2][0] if v[0] == "call" and v[1] == ("global", "float") and len(v[2]) == 1 and not v[3] else None
             while inner is not None and inner[0] == "meth" and inner[2] == "strip" and not inner[3]:
                 inner = inner[1]          # float() ignores surrounding blanks anyway
@@ -772,22 +774,50 @@ def _r4(ctx):
             v = None
         ctx.check(v is not None and v <= 0, "R4", f"Reaction.__init__:{a} default", ("naunet/reactions/reaction.py", init.lineno),
                   "a reaction without window carries a non-positive bound (= unbounded)", found=repr(v))
-    # UCLCHEM freeze window
+    _uclchem_freeze(ctx, pkg)
+
+
+def _uclchem_freeze(ctx, pkg):
+    """UCLCHEM freeze-out reactions act below 30 K only: on the paths where the reaction type is UCLCHEM_FR the stored window is
+    (0, 30), whatever the arrangement (the fields overwritten before float(), a conditional expression, an if/else around the
+    stores).  Decided by partial evaluation of the stored values under `reaction_type == UCLCHEM_FR`."""
     pkg.method("UCLCHEMReaction", "_parse_string")
     ufn = pkg.folded("UCLCHEMReaction", "_parse_string", keep=KEEP)
     ctx.saw(UCL, "UCLCHEMReaction._parse_string")
-    from ..valueflow import Flow
     ufl = Flow(ufn, UCL)
-    got = {}
-    for f in ufl.facts:
-        if f.kind == "attrstore" and f.target in ("temp_min", "temp_max"):
-            v = simp(f.value)
-            if v[0] == "call" and v[1] == ("global", "float") and len(v[2]) == 1 and v[2][0][0] == "phi":
-                c, a, b = v[2][0][1:4]
-                if c[0] == "cmp" and c[1] == ("Eq",) and show(c[2][0]).endswith("reaction_type") and show(c[2][1]).endswith("UCLCHEM_FR") and a[0] == "const" and b[0] == "item":
-                    got[f.target] = a[1]
-    ok = got == {"temp_min": 0, "temp_max": 30}
-    ctx.check(ok, "R4", "UCLCHEM:FREEZE window", (UCL, ufn.lineno), "freeze-out reactions get the window (0, 30) before the bounds are stored")
+    W = (UCL, ufn.lineno)
+
+    def is_fr(c):
+        if not (isinstance(c, tuple) and len(c) == 3 and c[0] == "cmp" and c[1] in (("Eq",), ("Is",)) and len(c[2]) == 2):
+            return False
+        l, r = show(c[2][0]), show(c[2][1])
+        return (l.endswith("reaction_type") and r.endswith("UCLCHEM_FR")) or (r.endswith("reaction_type") and l.endswith("UCLCHEM_FR"))
+    stores = [f for f in ufl.facts if f.kind == "attrstore" and f.target in ("temp_min", "temp_max") and f.extra.get("obj") == ("param", "self")]
+    atoms = set()
+    for f in stores:
+        atoms |= {x for x in walk(simp(f.value)) if is_fr(x)}
+        atoms |= {x for g, _ in f.guards for x in walk(simp(g)) if is_fr(x)}
+    got, unread = {}, []
+    for attr in ("temp_min", "temp_max"):
+        live = [f for f in stores if f.target == attr and not any(is_fr(simp(g)) and not pol for g, pol in f.guards)]      # paths compatible with FR
+        if not live:
+            unread.append(f"no store into self.{attr} on the freeze-out path")
+            continue
+        v = simp(peval(simp(live[-1].value), {a: True for a in atoms}))
+        if v[0] == "call" and v[1] == ("global", "float") and len(v[2]) == 1 and not v[3]:
+            v = v[2][0]
+        if v[0] == "const" and isinstance(v[1], (int, float)) and not isinstance(v[1], bool):
+            got[attr] = v[1]
+        else:
+            unread.append(f"self.{attr} = {show(v)[:60]}")
+    if not atoms and stores and all(simp(f.value)[0] == "call" and simp(f.value)[1] == ("global", "float") for f in stores):
+        ctx.bad("R4", "UCLCHEM:FREEZE window", W, "no store of the temperature window depends on the reaction type being UCLCHEM_FR: freeze-out reactions keep the window of the file "
+                                                  "instead of (0, 30)", expected="lt, ut = 0, 30 for UCLCHEM_FR", found="; ".join(show(simp(f.value))[:40] for f in stores))
+    elif unread or not atoms:
+        ctx.unrec("R4", "UCLCHEM:FREEZE window", W, "cannot read the window stored for freeze-out reactions: " + ("; ".join(unread) or "no test of the reaction type"))
+    else:
+        ok = got == {"temp_min": 0, "temp_max": 30}
+        ctx.check(ok, "R4", "UCLCHEM:FREEZE window", W, "freeze-out reactions get the window (0, 30) before the bounds are stored", expected="(0, 30)", found=str((got.get("temp_min"), got.get("temp_max"))))
 
 
 T = FILE
@@ -892,4 +922,46 @@ MUTANTS += [
         {"file": T, "old": "    def _assign_rates(\n", "new": '    @staticmethod\n    def _share(exprs, symbol):\n        first = {}\n        shared = []\n        for idx, expr in enumerate(exprs):\n'
                                                              '            ref = first.setdefault(expr, idx)\n            shared.append(f"{symbol}[{ref}]" if ref != idx else expr)\n        return shared\n\n    def _assign_rates(\n'},
         {"file": T, "old": _RA, "new": "        rateexprs = self._share(rateexprs, rate_sym)\n" + _RA}], "rules": ["R1"]},
+]
+# ---- wave 2: table-driven spellings (class-level key -> attribute tables, setattr, functools.reduce), helper pipelines
+_K_TABLE_CLS = ('    _limit_attributes = {"tmin": "temp_min", "tmax": "temp_max"}\n    _no_limit = ("N", "NONE", "N/A", "NO", "")\n'
+                '    _limit_operators = ("<", ">", ".LE.", ".GE.", ".LT.", ".GT.")\n\n' + _K_CLS)
+
+
+def _k_table_arm(table="self._limit_attributes", ops="self._limit_operators", convert='value = value.replace("d", "e")\n', pick="key"):
+    return ('                elif key in ' + table + ':\n                    if value.upper() in self._no_limit:\n                        continue\n'
+            '                    value = reduce(lambda text, opstr: text.replace(opstr, ""), ' + ops + ', value)\n'
+            '                    ' + convert +
+            '                    setattr(self, ' + table + '[' + pick + '], float(value))\n')
+
+
+def _k_table(cls=_K_TABLE_CLS, **kw):
+    return [{"file": KROME, "old": "import re\n", "new": "import re\nfrom functools import reduce\n"}, {"file": KROME, "old": _K_CLS, "new": cls}, {"file": KROME, "old": _K_ARMS_OLD, "new": _k_table_arm(**kw)}]
+
+
+_U_FREEZE_OLD = ('            if self.reaction_type == self.ReactionType.UCLCHEM_FR:\n                lt, ut = 0, 30\n\n            self.alpha = float(a)\n            self.beta = float(b)\n'
+                 '            self.gamma = float(c)\n            self.temp_min = float(lt)\n            self.temp_max = float(ut)\n')
+
+
+def _u_freeze(lo, hi):
+    return ('            self.alpha = float(a)\n            self.beta = float(b)\n            self.gamma = float(c)\n'
+            '            if self.reaction_type == self.ReactionType.UCLCHEM_FR:\n                self.temp_min, self.temp_max = ' + lo + ', ' + hi + '\n'
+            '            else:\n                self.temp_min = float(lt)\n                self.temp_max = float(ut)\n')
+
+
+_U_NATIVE_OLD = ('        self.alpha = float(a)\n        self.beta = float(b)\n        self.gamma = float(c)\n        self.temp_min = float(lt)\n        self.temp_max = float(ut)\n')
+MUTANTS += [
+    {"name": "krome-table-dispatch-swapped", "edits": _k_table(cls=_K_TABLE_CLS.replace('{"tmin": "temp_min", "tmax": "temp_max"}', '{"tmin": "temp_max", "tmax": "temp_min"}')), "rules": ["R4"]},
+    {"name": "krome-table-dispatch-operators-lack-.LT.", "edits": _k_table(cls=_K_TABLE_CLS.replace('".LT.", ', '')), "rules": ["R4"]},
+    {"name": "krome-table-dispatch-no-d-exponent", "edits": _k_table(convert='value = value.strip()\n'), "rules": ["R4"]},
+    {"name": "uclchem-freeze-stores-in-arms-wrong-upper", "file": UCL, "old": _U_FREEZE_OLD, "new": _u_freeze("0.0", "300.0"), "rules": ["R4"]},
+    {"name": "uclchem-freeze-dropped", "file": UCL, "old": "            if self.reaction_type == self.ReactionType.UCLCHEM_FR:\n                lt, ut = 0, 30\n", "new": "", "rules": ["R4"]},
+    {"name": "native-window-zip-setattr-crossed", "file": "naunet/reactions/reaction.py", "old": _U_NATIVE_OLD,
+     "new": '        for attrname, text in zip(("alpha", "beta", "gamma", "temp_max", "temp_min"), (a, b, c, lt, ut)):\n            setattr(self, attrname, float(text) if attrname != "temp_min" else -1.0)\n', "rules": ["R4"]},
+]
+BENIGN += [
+    {"name": "krome-window-table-dispatch-setattr-reduce", "edits": _k_table()},
+    {"name": "uclchem-freeze-stores-in-arms", "file": UCL, "old": _U_FREEZE_OLD, "new": _u_freeze("0.0", "30.0")},
+    {"name": "native-window-zip-setattr", "file": "naunet/reactions/reaction.py", "old": _U_NATIVE_OLD,
+     "new": '        for attrname, text in zip(("alpha", "beta", "gamma", "temp_min", "temp_max"), (a, b, c, lt, ut)):\n            setattr(self, attrname, float(text))\n'},
 ]
